@@ -6,11 +6,12 @@ import warnings
 
 import common
 from props import accessspec as spec
+from props import c01match as cm
 from props import c01x as cx
 from props import visitlib as vl
 
 PID = "C01"
-TABLES = ["RC"]
+TABLES = ["RC", "C01"]
 
 WITNESSES = '''
 def w_slice(a, b):
@@ -55,7 +56,12 @@ def run(tier, seed, build):
                 "initialiser / static methods, named lambdas): real root context + FileAnalyser vs the Lean model, then for every "
                 "callable the specification finds in the source the real FileIr must have an entry holding every access of its "
                 "body; [CLI] two-file projects (target + followed import, flat or package): the same oracle on `-o ir` (target "
-                "and import) and on `-o results`. non-trivial = distinct callable with >= 3 accesses")
+                "and import) and on `-o results`. [match] the same three levels (per function — the model asked through the typed "
+                "`Match.stmt` encoding AND the generic one —, whole files, two-file projects in-process and through the CLI) on bodies "
+                "dense in `match` statements over the whole pattern grammar (value / literal / singleton / capture / wildcard / "
+                "sequence with star / mapping with dotted keys and **rest / class with positional and keyword sub-patterns / or / "
+                "group / `as` around each of them, guards and bodies using the captures, nested); every pattern kind, every `as` "
+                "wrapping and every load-under-`as` must be reached by the run. non-trivial = distinct callable with >= 3 accesses")
     rng = random.Random(seed)
     n_modules = 60 if tier == "quick" else 900
     model = common.Model()
@@ -88,6 +94,8 @@ def run(tier, seed, build):
                 continue
             if a.tags:
                 sig = "missed-access:" + a.tags[0]
+            elif cx.match_position(a.path) is not None:
+                sig = "missed-access:" + cx.match_position(a.path)
             else:
                 sig = "missed-access:other:" + "/".join(a.path[-2:])
             res.count("verdict:" + sig)
@@ -102,6 +110,12 @@ def run(tier, seed, build):
             cx.judge_file_case(res, fc, "filestage")
     cx.run_unit_stage(res, random.Random(seed + 7005), 60 if tier == "quick" else 700, model)
     cx.run_project_stage(res, random.Random(seed + 7007), *((36, 8) if tier == "quick" else (400, 40)))
+    # `match` statements: every pattern kind x wrapper x position (py/props/c01match.py, RattrModel/Match.lean)
+    cm.run_function_stage(res, random.Random(seed + 7011), 30 if tier == "quick" else 400, model)
+    cm.run_file_stages(res, random.Random(seed + 7013), *((16, 8, 3) if tier == "quick" else (200, 60, 12)), model)
+    unreached = cm.reach_summary(res.distribution)
+    if unreached:
+        res.internal_errors.append({"what": "the match generator did not reach some pattern kinds / wrappers", "unreached": unreached})
     res.assumptions = [
         "[interp] nested def / lambda / class bodies are exempt from the lower bound (documented unsupported, diagnosed)",
         "[interp] a direct getattr-family call with a literal name is the attribute access (no call record demanded)",
@@ -112,6 +126,10 @@ def run(tier, seed, build):
         "with an error and not analysed). Direct children of the module MUST have an IR entry; the same shapes nested in a "
         "compound statement are judged when rattr has an entry for them",
         "`-o results` of the target: the final per-function object must still contain the function's own accesses",
+        "[interp] the loads of a `match` pattern are the dotted name of a value pattern, the class expression of a class pattern "
+        "and a dotted mapping key (ordinary Load expressions of the AST), wherever in the pattern they sit; names a pattern BINDS "
+        "(captures, `as` names, `*rest`, `**rest`) are not attribute / variable accesses of the kind the property lists and are "
+        "not demanded under sets (uses of them in the guard / body are demanded under gets like any other name)",
     ]
     return res
 
